@@ -48,7 +48,7 @@ def gen_ddl(rng, mysql_types):
         if rng.random() < 0.2:
             s += " DEFAULT NULL"
         if rng.random() < 0.5:
-            s += " COMMENT " + rng.choice(["'c'", "'it''s'", "'主键'", "'a,b (c)'"])
+            s += " COMMENT " + rng.choice(["'c'", "'it''s'", "'主键'", "'a,b (c)'", "''", '"customer\'s nick"', '"two \'\' quotes"', "'back\\\\slash'", '"dq"'])
         cols.append(s)
     items = list(cols)
     if rng.random() < 0.4:
@@ -56,7 +56,7 @@ def gen_ddl(rng, mysql_types):
     if rng.random() < 0.2:
         items.append("KEY idx1 (" + names[-1] + ")")
     s = "CREATE TABLE " + ("IF NOT EXISTS " if rng.random() < 0.2 else "") + rng.choice(["t", "db.t1", "`s`.`u`", "`order`"]) + " (" + ", ".join(items) + ")"
-    for o in rng.sample(["ENGINE=InnoDB", "DEFAULT CHARSET=utf8mb4", "COMMENT='tbl'", "COMMENT 'the table'", "AUTO_INCREMENT=7",
+    for o in rng.sample(["ENGINE=InnoDB", "DEFAULT CHARSET=utf8mb4", "COMMENT='tbl'", "COMMENT 'the table'", "COMMENT=''", 'COMMENT="owner\'s table"', "AUTO_INCREMENT=7",
                          "PARTITIONED BY (dt VARCHAR(8) COMMENT 'day', shard INT(11))", "PARTITIONED BY (p BIGINT(20))"], rng.randint(0, 3)):
         s += " " + o
     return s
